@@ -40,7 +40,14 @@ fn check_tx(r: &Report, t: &RTx, tag: &str) {
     let exp_size = full.len();
     let exp_weight = ref_weight(t);
     let exp_dw = ref_discount_weight(t);
-    let got = guard(|| (lib.size(), lib.weight(), lib.vsize(), lib.discount_weight(), lib.discount_vsize(), elements::encode::serialize(&lib).len()));
+    #[allow(deprecated)]
+    let got = guard(|| {
+        // the deprecated aliases are still public entry points
+        if lib.get_size() != lib.size() || lib.get_weight() != lib.weight() {
+            return (usize::MAX, lib.get_weight(), lib.vsize(), lib.discount_weight(), lib.discount_vsize(), lib.get_size());
+        }
+        (lib.size(), lib.weight(), lib.vsize(), lib.discount_weight(), lib.discount_vsize(), elements::encode::serialize(&lib).len())
+    });
     let shape = format!(
         "{}/{}in/{}out/w{}",
         tag,
@@ -169,10 +176,15 @@ pub fn run(r: &Report) {
             r.state(1);
             r.trans(2);
             blocks += 1;
+            #[allow(deprecated)]
+            let aliases = guard(|| (lib.get_size(), lib.get_weight()));
             match guard(|| (lib.size(), lib.weight())) {
                 Err(p) => r.violation("block/panic", json!({"block": crate::engine::hex(&full)}), p),
                 Ok((s, w)) => {
                     r.trace(1);
+                    if aliases != Ok((s, w)) {
+                        r.violation("block/deprecated-alias-differs", json!({"block": crate::engine::hex(&full)}), format!("get_size/get_weight = {:?}, size/weight = {:?}", aliases, (s, w)));
+                    }
                     // same block after its header witness was cleared and restored (same block hash, other sizes)
                     let mut cleared = lib.clone();
                     cleared.header.clear_witness();
